@@ -153,6 +153,10 @@ def _return_conversions(ctx, prog, f, ev, rb, rs):
             return tr
         if k == 'call' and e.get('fn') == '__builtin_expect':
             return rng(e['args'][0], env)
+        if k == 'bin' and e.get('op') == ',':
+            return rng(e['r'], env)         # the value of (a, b) is b
+        if k == 'paren':
+            return rng(e['e'], env)
         if k == 'stmtexpr' and 'last' in e:
             return rng(e['last'], env)
         return _type_range(prog, e.get('ty'))
